@@ -423,7 +423,9 @@ pub fn gen_op(kind: Kind, r: &mut Rng, st: &mut GenState) -> Option<Op> {
                         3 => RqscId::Pci(r.u32b()),
                         _ => {
                             let n = small_or_big(r, 16, &[247, 248, 249]) as usize;
-                            RqscId::Vendor(4 + r.below(252) as u8, r.byte_vec(n))
+                            // mostly codes outside the standard 0..=3, sometimes one of them
+                            let code = if r.chance(1, 6) { r.below(4) as u8 } else { 4 + r.below(252) as u8 };
+                            RqscId::Vendor(code, r.byte_vec(n))
                         }
                     };
                     RqscRes { ty: r.below(2) as u8, flags: r.u16b(), id }
